@@ -654,7 +654,7 @@ theorem print_ne (p : Nat) (arg : Expr) (dirs : List Directive) : CmdNe F G R ae
           rw [hjv] at hx
           rw [hx] at hgo
           intro x hxv
-          simp [hv, Spec.Eval.Out.bind, refPrint, hvj, hgo] at hxv
+          simp [hv, Spec.Eval.Out.bind, refPrint, refPrintJs, hvj, hgo] at hxv
       · exact absurd hx (appendTo_ne_error hb _)
     · cases h
   · cases h
